@@ -9,6 +9,9 @@ CLOSURE = [
     {'fn': 'UniformReservoirStorage.__init__', 'clauses': ['algoL_init', 'cfg', 'empty']},
     {'fn': 'UniformReservoirStorage.update', 'clauses': ['algoL_step', 'inv:uniform_counter', 'inv:count']},
 ]
+# refinement to Algorithm L: stricter than the statement (another correct uniform reservoir algorithm would lose it) - a failure
+# counts as a violation only together with a failing input (quadrature / enumeration of the real class)
+STRICTER_THAN_STATEMENT = ['algoL_*', '*algoL*']
 EXPLANATION = ("Refinement to Algorithm L (Li 1994), the algorithm the class's own docstring cites, as a deterministic function of the "
                "ghost draw list: W0 = exp(log u0 / k), next0 = k + floor(log u1 / log(1 - W0)) + 1; on an acceptance (next = i') the slot is "
                "randrange(k) over the full range, W' = W exp(log u_a / k) and next' = next + floor(log u_b / log(1 - W')) + 1 - the skip "
@@ -28,62 +31,22 @@ DESIGN_REF = "DESIGN.md 5/C08"
 
 
 def _quadrature(k, n, G):
-    """inclusion probability of each arrival after n updates, midpoint rule over the random.random draws (G points each),
-    exact enumeration of the randrange draws; runs the real class with a scripted generator"""
-    import random as pyrandom
+    """inclusion probability of each arrival after n updates through the real class, whatever draws it makes: randrange
+    draws enumerated exactly, random.random draws on G midpoints each (props/_util.outcome_distribution)"""
     from ixai.storage import UniformReservoirStorage
-    # upper bound on random.random draws that can matter: 2 at init + 2 per acceptance (at most n-k acceptances)
-    n_u = 2 + 2 * (n - k)
-    mids = [(i + 0.5) / G for i in range(G)]
+    from props._util import outcome_distribution
+
+    def run():
+        st = UniformReservoirStorage(size=k, store_targets=False)
+        for t in range(n):
+            st.update({'t': t})
+        xs, _ = st.get_data()
+        return tuple(sorted(x['t'] for x in xs))
+    dist = outcome_distribution(run, G, exact=False)
     probs = [0.0] * n
-    saved = (pyrandom.random, pyrandom.randrange)
-    try:
-        def rec(prefix_u, weight):
-            # run with the given prefix of u-draws; if the run needs more draws, branch
-            slots_needed = []
-            for slots in itertools.product(range(k), repeat=n - k):
-                ui = iter(prefix_u)
-                si = iter(slots)
-                need_more = [False]
-
-                class Need(Exception):
-                    pass
-
-                def rnd():
-                    try:
-                        return next(ui)
-                    except StopIteration:
-                        raise Need()
-
-                def rr(m):
-                    return next(si) % m
-                pyrandom.random, pyrandom.randrange = rnd, rr
-                try:
-                    st = UniformReservoirStorage(size=k, store_targets=False)
-                    for t in range(n):
-                        st.update({'t': t})
-                except Need:
-                    return None
-                used_slots = (n - k) - len(list(si))
-                xs, _ = st.get_data()
-                slots_needed.append((slots[:used_slots], [x['t'] for x in xs]))
-            # distinct slot prefixes are equally likely
-            seen = {}
-            for sp, content in slots_needed:
-                seen[sp] = content
-            for sp, content in seen.items():
-                for t in content:
-                    probs[t] += weight / len(seen)
-            return True
-
-        def explore(prefix_u, weight):
-            r = rec(prefix_u, weight)
-            if r is None:
-                for m in mids:
-                    explore(prefix_u + [m], weight / G)
-        explore([], 1.0)
-    finally:
-        pyrandom.random, pyrandom.randrange = saved
+    for content, w in dist.items():
+        for t in content:
+            probs[t] += w
     return probs
 
 
@@ -93,11 +56,19 @@ def BOUNDED(tier, seed):
         [(1, 2, 40), (1, 3, 12), (2, 3, 24), (2, 4, 8), (3, 4, 12)]
     evals = 0
     out = []
+    skipped = []
     for k, n, G in cases:
         evals += 1
         try:
             probs = _quadrature(k, n, G)
-        except Exception as ex:   # noqa  (the library raised, or drew in a way the scripted generator cannot serve)
+        except RuntimeError as ex:
+            if 'outcome_distribution' in str(ex):
+                skipped.append({'k': k, 'n': n, 'grid': G, 'why': str(ex)})      # a limit of this harness, not of the library
+                continue
+            fails.append({'key': 'raised', 'summary': f'k={k} n={n}: UniformReservoirStorage raised {ex!r} under scripted draws', 'k': k, 'n': n,
+                          'observed': repr(ex)})
+            continue
+        except Exception as ex:   # noqa  (the library raised)
             fails.append({'key': 'raised', 'summary': f'k={k} n={n}: UniformReservoirStorage raised {ex!r} under scripted draws', 'k': k, 'n': n,
                           'observed': repr(ex)})
             continue
@@ -110,7 +81,7 @@ def BOUNDED(tier, seed):
     return [{'name': 'inclusion_probability_quadrature', 'evaluations': evals, 'distinct_nontrivial': len(cases),
              'rule': 'midpoint quadrature (G points per random.random draw) x exact enumeration of slots through the real class; '
                      'cases (k,n,G) = ' + str(cases) + '; tolerance 0.07 (quick, coarse grids) / 0.035 (thorough); distinct = (k, n)',
-             'bound': 'k <= 3, n <= 4', 'cases': out, 'failures': fails}]
+             'bound': 'k <= 3, n <= 4', 'cases': out, 'not_explored': skipped, 'failures': fails}]
 
 
 def SEARCH(ob, seed):
